@@ -1,5 +1,6 @@
 import NA.Gen.IosSkel
 import NA.Model.IosSessionProg
+import NA.Model.IosLogin
 /-!
 # C15, generated fact (T-gen): the interaction skeleton of `go/pkg/ios/device.go` is the skeleton OF THE MODEL
 
@@ -18,7 +19,8 @@ The programs of `NA/Model/IosSessionProg.lean` are single terms with two reading
 Dropping or moving a `defer`, moving `writeMem()` into the closure, removing the re-arm or the
 accumulation of `needReload`, forgetting `s.reloadActive = true` on a branch, changing a prompt
 pattern or the order of the exchanges changes the generated set; restructuring the model breaks
-the `denote` equations.  `writeMem` (retry loop) is compared with a declared path set.
+the `denote` equations.  `writeMem` with its retry loop (`Prog.loop`) and the login / enable dialogue
+(`LoginEnable`, `go/pkg/cisco/device.go`) are programs of the same embedding.
 -/
 namespace NA.C15Skel
 open NA.Ios NA.Ios.Prog
@@ -87,6 +89,67 @@ theorem denote_applyCommands (D : Device σ) (cs : List Str) :
   unfold applyCommands applyCommandsP guarded guardedBody changeLoop
   simp only [denote, bindM_pure_left]
 
+/-! ### the retry loop of `writeMem` -/
+
+theorem bindM_assoc {α β γ : Type} (m : M σ α) (f : α → M σ β) (g : β → M σ γ) :
+    bindM (bindM m f) g = bindM m (fun a => bindM (f a) g) := by
+  funext st
+  unfold bindM
+  cases h : m st with
+  | mk r st' => cases r <;> rfl
+
+/-- what a round of the loop does with the verdict of the model's `writeMemRound`, the counter being `k` -/
+def roundPost (k : Nat) : WmStep → M σ WmStep
+  | .done => pureM .done
+  | .retry => if isPos k then pureM .retry else abortM .writeMemGiveUp
+
+theorem denote_writeMemRound (D : Device σ) (k : Nat) :
+    denote (writeMemRoundP D k) = bindM (writeMemRound D) (roundPost k) := by
+  unfold writeMemRound writeMemRoundP
+  simp only [denote]
+  rw [bindM_assoc]; congr 1; funext out
+  rw [bindM_assoc]; congr 1; funext out2
+  cases h1 : containsLit (lit "[OK]") out2
+  · cases h2 : containsLit (lit "startup-config file open failed") out2
+    · simp only [Bool.false_eq_true, if_false]; rfl
+    · simp only [Bool.false_eq_true, if_false, if_true]
+      show _ = roundPost k WmStep.retry
+      cases h3 : isPos k <;> simp [roundPost, h3]
+  · simp only [if_true]; rfl
+
+theorem loopM_writeMem (D : Device σ) : ∀ n, loopM n (fun k => denote (writeMemRoundP D k)) = writeMem D n
+  | 0 => by
+    unfold loopM writeMem
+    simp only [denote_writeMemRound]
+    rw [bindM_assoc]; congr 1; funext r
+    cases r <;> rfl
+  | n + 1 => by
+    unfold loopM writeMem
+    simp only [denote_writeMemRound]
+    rw [bindM_assoc]; congr 1; funext r
+    cases r
+    · rfl
+    · show bindM (roundPost (n + 1) WmStep.retry) _ = _
+      simp only [roundPost, isPos, if_true, bindM_pure_left]
+      have := loopM_writeMem D n
+      simp only [denote_writeMemRound] at this
+      exact this
+
+/-- the program of `writeMem` (retry loop included) denotes the model's `writeMem … 2` -/
+theorem denote_writeMem (D : Device σ) : denote (writeMemP D) = writeMem D 2 := by
+  unfold writeMemP
+  simp only [denote]
+  exact loopM_writeMem D 2
+
+/-! ### the login / enable dialogue -/
+
+theorem denote_loginWaitPrompt (D : Device σ) (enter : Str) (c : Char) :
+    denote (loginWaitPromptP D enter c) = loginWaitPrompt D enter c := rfl
+
+theorem denote_loginEnable (D : Device σ) (pass : Str) : denote (loginEnableP D pass) = loginEnable D pass := by
+  unfold loginEnable loginEnableP
+  simp only [denote]
+
 /-! ## their path sets are the regenerated ones -/
 
 /-- a device without behaviour: the path set of a program does not depend on the device -/
@@ -129,8 +192,18 @@ theorem paths_stripReloadBanner (out : Str) :
     sameSet (gen "stripReloadBanner") (paths (stripReloadBannerP (σ := σ) out)) = true := by
   have h : paths (stripReloadBannerP (σ := σ) out) = paths (stripReloadBannerP (σ := Unit) []) := rfl
   rw [h]; decide +kernel
-/-- `writeMem`: declared path set -/
-theorem paths_writeMem : sameSet (gen "writeMem") writeMemPaths = true := by decide
+/-- `writeMem`: the path set of the program with the retry loop -/
+theorem paths_writeMem (D : Device σ) : sameSet (gen "writeMem") (paths (writeMemP D)) = true := by
+  have h : paths (writeMemP D) = paths (writeMemP noDev) := rfl
+  rw [h]; decide +kernel
+theorem paths_loginEnable (D : Device σ) (pass : Str) :
+    sameSet (gen "LoginEnable") (paths (loginEnableP D pass)) = true := by
+  have h : paths (loginEnableP D pass) = paths (loginEnableP noDev []) := rfl
+  rw [h]; decide +kernel
+theorem paths_loginWaitPrompt (D : Device σ) (enter : Str) (c : Char) :
+    sameSet (gen "LoginEnable.waitPrompt") (paths (loginWaitPromptP D enter c)) = true := by
+  have h : paths (loginWaitPromptP D enter c) = paths (loginWaitPromptP noDev [] 'x') := rfl
+  rw [h]; decide +kernel
 
 /-- the comparison is not vacuous: the sets are non-empty and a different set is rejected -/
 example : gen "ApplyCommands" ≠ [] ∧ sameSet (gen "ApplyCommands") (gen "cmd") = false := by decide
@@ -139,6 +212,7 @@ def obligations : List Lean.Name :=
   [``denote_applyCommands, ``denote_cmd, ``denote_check, ``denote_sendReloadCmd, ``denote_cancelReload,
    ``denote_prepareDevice, ``denote_stripReloadBanner,
    ``paths_applyCommands, ``paths_cmd, ``paths_check, ``paths_sendReloadCmd, ``paths_scheduleReload,
-   ``paths_extendReload, ``paths_cancelReload, ``paths_prepareDevice, ``paths_stripReloadBanner, ``paths_writeMem]
+   ``paths_extendReload, ``paths_cancelReload, ``paths_prepareDevice, ``paths_stripReloadBanner, ``paths_writeMem,
+   ``denote_writeMem, ``denote_loginEnable, ``denote_loginWaitPrompt, ``paths_loginEnable, ``paths_loginWaitPrompt]
 
 end NA.C15Skel
